@@ -9,7 +9,8 @@ import random
 
 from lib import common, gen, qscen
 
-THEOREMS_TIED = ["C12_kv_count", "C12_kv_prefix", "C12_kv_no_truncation", "C12_sql_limit", "C12_sql_no_truncation"]
+THEOREMS_TIED = ["C12_kv_count", "C12_kv_prefix", "C12_kv_no_truncation", "C12_kv_cap", "C12_kv_at_most_max", "C12_kv_single_kind_newest_first", "C12_kv_single_kind_limit_keeps_newest", "C12_sql_limit",
+                 "C12_sql_no_truncation", "C12_sql_limit_zero"]
 
 LIMITS = [0, 1, 2, 3, 5, common.MAX_LIMIT - 1, common.MAX_LIMIT, common.MAX_LIMIT + 1, 10 ** 6, None, "absent", "absent"]
 
@@ -78,16 +79,8 @@ def oracle(report, scen, rec):
     f0 = rec["filters"][0]
     if len(ids) > cap:
         cls = None
-        if rec["backend"] == "kv":
-            if qs[0].limit is None:
-                cls = "kv-limit-null-unlimited"
-            elif qs[0].limit > common.MAX_LIMIT:
-                cls = "kv-no-max-limit-cap"
-        else:
-            if any(q.limit == 0 for q in qs) and len(ids) <= common.MAX_LIMIT:
-                cls = "sql-limit-zero-is-max"
-            elif len(qs) > 1 and len(ids) <= common.MAX_LIMIT:
-                cls = "sql-one-limit-per-req"
+        if rec["backend"] == "sql" and len(qs) > 1 and len(ids) <= common.MAX_LIMIT:
+            cls = "sql-one-limit-per-req"
         report.property_failure("%s sent %d events for %r, allowed at most %d" % (rec["backend"], len(ids), rec["filters"], cap),
                                 payload, cls)
         return
@@ -98,7 +91,7 @@ def oracle(report, scen, rec):
             only_i = [x for x in ids if x in scen.by_id and spec.matches(qi, scen.by_id[x], False)
                       and not any(spec.matches(qj, scen.by_id[x], False) for j, qj in enumerate(qs) if j != i)]
             if len(only_i) > requested_limit(qi):
-                cls = "sql-limit-zero-is-max" if qi.limit == 0 else "sql-one-limit-per-req"
+                cls = "sql-one-limit-per-req"
                 report.property_failure("%s sent %d events that match only filter %d (limit %r) of %r"
                                         % (rec["backend"], len(only_i), i, qi.limit, rec["filters"]), payload, cls)
                 break
